@@ -3,6 +3,7 @@ package tar
 import (
 	"archive/tar"
 	"bytes"
+	"errors"
 	"io"
 	"io/fs"
 	"os"
@@ -411,7 +412,21 @@ func zzvRun(w *zzvWorld, ents []zzvEntry) {
 	err := te.Extract(rd)
 	verifrt.Observe("ok", err == nil)
 	if err != nil && verifrt.Symbolic() && verifrt.Param("DBG", 0) == 1 {
-		verifrt.Assert("dbg:"+err.Error(), false)
+		msg := "other"
+		var pe *fs.PathError
+		var le *os.LinkError
+		if errors.As(err, &pe) {
+			msg = "patherr " + pe.Op + " " + pe.Path
+			if pe.Err == nil {
+				msg += " nilErr"
+			}
+		} else if errors.As(err, &le) {
+			msg = "linkerr " + le.Op + " " + le.Old + " " + le.New
+			if le.Err == nil {
+				msg += " nilErr"
+			}
+		}
+		verifrt.Assert("dbg:"+msg, false)
 	}
 	verifrt.Observe("inside", w.inside())
 	after := w.snapshot()
